@@ -368,7 +368,13 @@ class C20(Prop):
                 res.violations.append('deadlock: stop()/wait() never returns (runner blocked on pause, final=%s, %d clients)'
                                       % (obs['final'], len(p['clients'])))
         if aux['result'] == 'limit':
-            res.violations.append('no termination within %d scheduling steps' % p['limit'])
+            # a runner nobody stopped, unpaused, on a statechart that is not final runs for ever: fine
+            stop_issued = any(op[0] == 'stop' for c in p['clients'] for op in c)
+            if stop_issued or obs['final']:
+                res.violations.append('no termination within %d scheduling steps although %s'
+                                      % (p['limit'], 'stop() was called' if stop_issued else 'the statechart is final'))
+            else:
+                res.features.add('runs-for-ever')
         if obs['final'] and obs['unpaused'] and aux['result'] in ('done', 'deadlock') and not obs['runner_done'] \
                 and obs['before_run'] == 1:
             res.violations.append('statechart final and runner not paused, but the runner did not stop')
